@@ -906,6 +906,31 @@ theorem c15_src_wrappers (ops : CellOps R) (hl : ops.Lawful) (ht : ops.Total) :
     fun f => by rw [fees_ser_eq, build_cellOf]; rfl, sale_ser_eq ops⟩,
    ⟨v3_de_eq, v4_de_eq, hl_de_eq, wm_de_eq ops, nft_de_eq, fees_de_eq, sale_de_eq ops⟩⟩
 
+/-- `c15_src_hash_update`: the same for `HashUpdate` of tlb/utils.py (`store_bytes(b'\\x72')` + two hashes; the parser's tag test
+    `load_bytes(1)[:1] != b'r'`): regenerated constructor, serialiser and parser = `Model/Wrappers.lean`, so `c15_hash_update_*`
+    speak about the regenerated code -/
+theorem c15_src_hash_update (ops : CellOps R) :
+    (∀ o n : Bytes, HashUpdate_init o n = some ⟨o, n⟩) ∧
+    (∀ h, (HashUpdate_serialize ops.make h).map (·.cell) = Message.serializeHashUpd ops h) ∧
+    HashUpdate_deserialize ops.view = (Message.loadHashUpdate : SOp R HashUpd) :=
+  ⟨hu_init, fun h => by rw [hu_ser_eq, build_cellOf]; rfl, hu_de_eq⟩
+
+/-- non-vacuity: `hu0` through the regenerated code -/
+example : ∃ p, HashUpdate_serialize tops.make hu0 = some p ∧
+    (HashUpdate_deserialize tops.view ⟨(tops.view p.cell).1, (tops.view p.cell).2⟩).2 = some hu0 := by
+  obtain ⟨ch, he, _, _, hser, hsome⟩ := c15_hash_update_serialize (R := T) tops tops_total hu0 (by decide) (by decide)
+  obtain ⟨c, hc⟩ := Option.isSome_iff_exists.mp hsome
+  have hd := c15_hash_update_own_parser tops c hu0 (c15_hash_update_decodes tops tops_lawful hu0 he (hser ▸ hc))
+  have h := (c15_src_hash_update tops).2.1 hu0
+  rw [hc] at h
+  cases hp : HashUpdate_serialize tops.make hu0 with
+  | none => simp [hp] at h
+  | some p =>
+    simp only [hp, Option.map_some, Option.some.injEq] at h
+    refine ⟨p, rfl, ?_⟩
+    rw [(c15_src_hash_update tops).2.2, h]
+    exact hd
+
 /-- `c15_src_wallet_v3_roundtrip`: **constructor → regenerated `serialize` → regenerated `deserialize` = the object**, the default
     included: for `seqno < 2^32`, a 32-byte key and `wallet_id` either `None` or an int `< 2^32` (0 allowed), the constructor
     returns the object `w` with `wallet_id` 698983191 resp. the given int, `serialize` returns a cell (320 bits, the spec
